@@ -623,7 +623,8 @@ class IH5Record(IH5Group):
         Returns new resulting container.
         """
         self._expect_open()
-        if self._has_writable:
+        if self._has_writable or self._ublock(-1).hdf5_hashsum is None:
+            # (an uncommitted patch is not writable if the record was opened read-only)
             raise ValueError("Cannot merge, please commit or discard your changes!")
 
         with type(self)(target, "x") as ds:
